@@ -3,8 +3,8 @@ import itertools, json, os, random, struct
 from vlib import core, corr
 
 AREA = "C08"
-MODULES = ["TinsModel.Props.C08", "TinsModel.Props.Limits.C08"]   # + the constants / limits tied to the source (translator/gen_limits.py)
-AUDIT = ["Audit/C08.lean", "Audit/LimitsC08.lean"]
+MODULES = ["TinsModel.Props.C08", "TinsModel.Props.C08Wire", "TinsModel.Props.Limits.C08"]   # + the constants / limits tied to the source (translator/gen_limits.py)
+AUDIT = ["Audit/C08.lean", "Audit/C08Wire.lean", "Audit/LimitsC08.lean"]
 LEVEL = "proof"
 HARNESS = "c08_reasm"
 HARNESS_FLAGS = ["-fno-access-control"]          # the harness prints IPv4Reassembler::streams_.size()
